@@ -71,6 +71,17 @@ TEXT = {
   "note": "Trusted: Coq kernel, extraction, driver, harness. The model's atomic steps (bind, register under the mutex, close pass, channel send/receive) are the Go primitives' documented semantics; the internal interleaving is not observed, only outcomes. proxySvc.start's 5 s wrapper is modelled only as an assumption.",
   "technique": "Coq proof (LTS invariant, progress, decreasing measure; refuted mutant) + outcome correspondence check over bind-failure/cancellation matrix",
  },
+ "C17": {
+  "text": "Proved in Coq (Properties/C17.v) for a generic option store (scalars + list options whose Set replaces an element of the same criteria, else "
+          "appends; Save = one line per scalar / per list element; LoadConfig = Set per line; Parse = arguments, stored file, arguments again): every "
+          "store in the form Set leaves it reloads from its saved lines to exactly itself (same scalars, same lists, same order); `config set` of one "
+          "scalar option leaves the lists and every other scalar as stored; the real Forwarders.Set / Profiles.Set are instances. Parsing/printing of "
+          "package net/time is an explicit hypothesis (String() of an element parses back to it). Tie: the real Config.Parse/Save in child processes; "
+          "effective configuration (incl. Profiles.Get / Forwarders.Get on probes) compared before and after reload and after `config set`; the stored "
+          "lines reloaded by the extracted store.",
+  "note": "Trusted: Coq kernel, extraction, driver, harness. The hypothesis parse(show e)=e is environment (net, time) and is sampled by the engine. Defects F9 (interface condition lost) and F14 (16-bit load of uint options) fixed in /repo.",
+  "technique": "Coq proof (generic store, induction over saved lines) + differential round-trip check on the real configuration code",
+ },
  "C18": {
   "text": "Proved in Coq (Properties/C18.v): for every hosts file, address->names and name->addresses lookups return exactly the associations "
           "written in the file (order and repeats kept; case-insensitive key; built-in localhost default only when undefined); for every cap and "
